@@ -78,6 +78,50 @@ def contract_tags(path):
     return tags
 
 
+def clause_tags(udir, incdirs, fnames):
+    """(function, N) -> tag of the N-th ensures clause, from the preprocessed contracts (macro families expand
+    to one source line, so line numbers cannot tell their clauses apart)"""
+    from .extract import match_close
+    cmd = ["gcc", "-E", "-CC", "-P", "-DNITRO_VERIF_CBMC"]
+    for d in incdirs:
+        cmd += ["-I", d]
+    cmd += ["-x", "c", os.path.join(udir, "contracts.h")]
+    try:
+        txt = subprocess.run(cmd, stdout=subprocess.PIPE, stderr=subprocess.DEVNULL, text=True, timeout=60).stdout
+    except Exception:
+        return {}
+    res = {}
+    for fn in fnames:
+        for m in re.finditer(r"\b%s\s*\(" % re.escape(fn), txt):
+            op = m.end() - 1
+            try:
+                cl = match_close(txt, op, "(", ")")
+            except Exception:
+                continue
+            rest = txt[cl + 1:cl + 20000]
+            if not re.match(r"\s*(/\*.*?\*/\s*)*__CPROVER_(requires|assigns|ensures|frees)", rest, re.S):
+                continue
+            n = 0
+            pos = 0
+            while True:
+                mm = re.compile(r"\s*(?:/\*@\s*([\w.\-]+)\s*\*/|/\*.*?\*/)?\s*__CPROVER_(requires|assigns|ensures|frees)\s*\(", re.S).match(rest, pos)
+                if not mm:
+                    break
+                o2 = mm.end() - 1
+                c2 = match_close(rest, o2, "(", ")")
+                kind = mm.group(2)
+                tagm = re.match(r"\s*/\*@\s*([\w.\-]+)\s*\*/", rest[c2 + 1:c2 + 200])
+                if kind == "ensures":
+                    n += 1
+                    if tagm:
+                        res[(fn, n)] = tagm.group(1)
+                pos = c2 + 1
+                if tagm:
+                    pos = c2 + 1 + tagm.end()
+            break
+    return res
+
+
 def load_known():
     p = os.path.join(VERIF, "known_findings.json")
     if not os.path.exists(p):
@@ -129,7 +173,10 @@ class Outcome:
 
 def obligation_label(job, r, tags):
     tag = ""
-    if r["file"].endswith("contracts.h") and r["line"] in tags:
+    m = re.match(r"^(\w+)\.postcondition\.(\d+)$", r["name"])
+    if m and (m.group(1), int(m.group(2))) in tags.get("clauses", {}):
+        tag = "." + tags["clauses"][(m.group(1), int(m.group(2)))]
+    elif r["file"].endswith("contracts.h") and r["line"] in tags and ".postcondition" not in r["name"]:
         tag = "." + tags[r["line"]]
     return r["name"] + tag
 
@@ -198,6 +245,7 @@ def run_check(prop, a, bdir, seed, t0):
                 fh.write("#ifndef NITRO_ENF_%s\n#define NITRO_ENF_%s 0\n#endif\n" % (f.name, f.name))
         udir = os.path.join(VERIF, "units", uname)
         tags_by_unit[uname] = contract_tags(os.path.join(udir, "contracts.h"))
+        tags_by_unit[uname]["clauses"] = clause_tags(udir, [os.path.join(VERIF, "rt"), udir, ud], [f.name for f in unit.functions])
         contract_names = [f.name for f in unit.functions] + unit.stubs
         ctext = open(os.path.join(udir, "contracts.h")).read()
         kf_of = {}
@@ -218,7 +266,8 @@ def run_check(prop, a, bdir, seed, t0):
             j.incdirs = [os.path.join(VERIF, "rt"), udir, ud]
             j.kf = kf_of.get(f.name, [])
             jobs.append(j)
-            if j.kf:
+            if j.kf and (a.tier == "thorough" or any(k.get("functions", [None])[0] == f.name for k in j.kf)):
+                # region run: is the listed finding still present?  quick: one representative function per finding
                 j2 = driver.Job(uname, f.name + "@region", "h_" + f.name, f.name, rep, [gen_c, har_c], defs + ["NITRO_KF_REGION=1"], rec=f.rec, props=f.props)
                 j2.incdirs = j.incdirs
                 j2.kf = j.kf
@@ -318,8 +367,10 @@ def write_evidence(prop, tier, seed, t0, jobs, units, tags, undecided=(), violat
     samples = []
     for j in main_jobs[:400]:
         for r in getattr(j, "obligations", []):
-            if ".postcondition" in r["name"] and len(samples) < 12 and tags and r["line"] in tags.get(j.unit, {}):
-                samples.append({"function": j.name, "obligation": r["name"] + "." + tags[j.unit][r["line"]], "status": r["status"], "clause": r["desc"][:200]})
+            if ".postcondition" in r["name"] and len(samples) < 12 and tags:
+                lab = obligation_label(j, r, tags.get(j.unit, {}))
+                if lab != r["name"]:
+                    samples.append({"function": j.name, "obligation": lab, "status": r["status"], "backend": j.backend})
     trusted = []
     facts = []
     fired = {}
